@@ -274,6 +274,10 @@ def gen_label_scenario(rng, tier='quick'):
             st.append(data())
         if rng.random() < 0.3:
             st.append(['instr', 'nop', []])
+        if rng.random() < 0.3:
+            # a local label at the very end of the region, directly in front of the next non-local label (possibly on one line
+            # with it): it belongs to the region that ends there, and each region may have its own
+            st += [ref('.tail'), ['label', '.tail']]
     fault = 'label-lines'
     if rng.random() < 0.15:
         # a reference to a local label that only an earlier region defines
@@ -389,3 +393,74 @@ def gen_layout_expr_scenario(rng, tier='quick'):
         st += [['label', c], data(), rng.choice([['instr', 'jmp', [lab(c)]], ['data', 2, [lab(b), lab(c)]], ['data', 2, [lab(a)]]])]
     return {'cfg': cfg, 'files': [{'name': 'main.asm', 'dir': 'src', 'stmts': st}], 'include_dirs': ['lib'], 'extra_files': [],
             'fault': fault, 'opts': _opts(rng, cfg)}
+
+
+def gen_small_space_window_scenario(rng, tier='quick'):
+    """small address spaces with an explicit image window that ends at, just above or far above the top of the address
+    space (the window is a property of the image file, not of the address space: it has end-start+1 bytes)"""
+    c = gen_small_space_scenario(rng, tier)
+    top = (1 << c['cfg']['addr_bits']) - 1
+    start = rng.choice([0, 0, 3, top - 4, top + 1])
+    c['opts'] = {'start': start, 'end': rng.choice([top, top + 1, top + 0x10, 2 * top + 1, top - 1]), 'fill': rng.choice([0, 0xEE])}
+    if c['opts']['end'] < start:
+        c['opts']['end'] = start + 7
+    c['fault'] = c['fault'] + '-window'
+    return c
+
+
+# ------------------------------------------------------------------------------------------------ zones filled to the brim
+def gen_zone_top_scenario(rng, tier='quick'):
+    """a named zone that ends where GLOBAL ends (the top of the address space, or of a redefined GLOBAL), filled exactly
+    to its last address and followed by lines that emit nothing (a label, a zero-length fill, re-selecting the zone, a
+    conditional block): the cursor may stand one past the end as long as nothing is emitted there.  Also: a memory map
+    chosen by a conditional chain whose branches declare the same zone name with different ranges."""
+    bits = rng.choice([8, 8, 16])
+    top = (1 << bits) - 1
+    cfg = dict(addr_bits=bits, endian=rng.choice(['little', 'big']), origin=0, page=1, terminator=0, embedded=False,
+               zones=[], consts=[], data=[], syms=[], cli=[])
+    gend = top
+    if bits == 16:
+        # (a redefined GLOBAL: an image of the whole 64K space is more than the model evaluation should be asked to print)
+        gend = rng.choice([0x2ff, 0x4ff])
+        cfg['zones'].append(['GLOBAL', 0x100, gend])
+        cfg['origin'] = 0x100
+    size = rng.choice([4, 8, 16])
+    zs = gend - size + 1
+    st = []
+    byte = [0x60]
+
+    def data(n):
+        out = []
+        for _ in range(n):
+            byte[0] = (byte[0] + 1) & 0xFF
+            out.append(num(byte[0]))
+        return ['data', 1, out]
+    fault = 'zone-top'
+    if rng.random() < 0.5:
+        cfg['zones'].append(['hi', zs, gend])
+    else:
+        # the memory map is chosen by a conditional: both branches declare the zone, only one of them is selected
+        sym = rng.choice(SYMS)
+        if rng.random() < 0.5:
+            cfg['cli'] = [[sym, '']]
+        other = [max(cfg['origin'] + 0x20, zs - 0x40), max(cfg['origin'] + 0x20, zs - 0x40) + size - 1]
+        pair = [['createzone', 'hi', zs, gend], ['createzone', 'hi', other[0], other[1]]]
+        if not cfg['cli']:
+            pair.reverse()           # the branch that is not selected comes first
+        if rng.random() < 0.5:
+            pair.reverse()
+            st += [['if', ['ifndef', sym]], pair[0], ['else'], pair[1], ['endif']]
+        else:
+            st += [['if', ['ifdef', sym]], pair[0], ['else'], pair[1], ['endif']]
+        fault = 'zone-top-conditional-map'
+    st += [data(2), ['memzone', 'hi']]
+    fill = size if rng.random() < 0.7 else rng.choice([size - 1, size + 1])
+    st.append(data(fill) if fill <= 4 else ['fill', num(fill), num(0xA5)])
+    tail = rng.choice([[['label', 'zone_end']], [['fill', num(0), num(1)]], [['memzone', 'hi'], ['label', 'again']],
+                       [['if', ['bare', '1']], ['label', 'in_cond'], ['endif']], [['label', 'zone_end'], ['label', '.loc']], []])
+    st += tail
+    st += [['memzone', 'GLOBAL'], data(1)]
+    if any(x[0] == 'label' and x[1] == 'zone_end' for x in st) and rng.random() < 0.6:
+        st.append(['data', 2 if bits > 8 else 1, [('lab', 'zone_end')]] if bits > 8 else ['data', 2, [('lab', 'zone_end')]])
+    return {'cfg': cfg, 'files': [{'name': 'main.asm', 'dir': 'src', 'stmts': st}], 'include_dirs': ['lib'], 'extra_files': [],
+            'fault': fault, 'opts': {'start': cfg['origin'], 'end': None, 'fill': 0}}
